@@ -85,6 +85,22 @@ func genValue(r *hx.Rand, ft int) int64 {
 	}
 }
 
+// dupPool, when set, restricts the field values of a data set to a few values, so that
+// windows hold many duplicates: equal frequencies (mode), equal values at different times in
+// different shards (percentile, distinct) and values that occur once.
+func genDupPool(r *hx.Rand, ft int) []int64 {
+	n := 2 + r.Intn(3)
+	pool := make([]int64, 0, n)
+	for len(pool) < n {
+		v := genValue(r, ft)
+		if ft == ftFloat || ft == ftInt {
+			v = int64(r.Intn(7)) - 3
+		}
+		pool = append(pool, v)
+	}
+	return pool
+}
+
 func genData(r *hx.Rand) Data {
 	var d Data
 	switch x := r.Intn(100); {
@@ -110,6 +126,7 @@ func genData(r *hx.Rand) Data {
 		}
 	}
 	noTies := r.Chance(50)
+	var dupPool []int64
 	total := 0
 	switch x := r.Intn(100); {
 	case x < 2:
@@ -120,6 +137,18 @@ func genData(r *hx.Rand) Data {
 		total = 8 + r.Intn(25)
 	default:
 		total = 30 + r.Intn(28)
+	}
+	if r.Chance(45) {
+		dupPool = genDupPool(r, d.FT)
+		if total >= 8 && r.Chance(50) {
+			noTies = false // duplicates and cross-series timestamp ties together
+		}
+	}
+	genVal := func() int64 {
+		if dupPool != nil && !r.Chance(12) {
+			return dupPool[r.Intn(len(dupPool))]
+		}
+		return genValue(r, d.FT)
 	}
 	lo := []int64{-60, -30, -5, 0, 0, 3, 100}[r.Intn(7)]
 	span := []int64{20, 50, 100, 200}[r.Intn(4)]
@@ -148,9 +177,9 @@ func genData(r *hx.Rand) Data {
 		if len(all) > 0 && r.Chance(15) {
 			// overwrite an earlier point later
 			q := all[r.Intn(len(all))]
-			p = Pt{S: q.S, T: q.T, V: genValue(r, d.FT)}
+			p = Pt{S: q.S, T: q.T, V: genVal()}
 		} else {
-			p = Pt{S: r.Intn(ns), V: genValue(r, d.FT)}
+			p = Pt{S: r.Intn(ns), V: genVal()}
 			for try := 0; try < 12; try++ {
 				p.T = genTime()
 				if !noTies {
@@ -217,19 +246,31 @@ func dataRange(d Data) (int64, int64, bool) {
 func fnsFor(ft int) []int {
 	switch ft {
 	case ftFloat, ftInt:
-		return []int{fnRaw, fnCount, fnSum, fnMean, fnMin, fnMax, fnFirst, fnLast, fnSpread, fnMedian}
+		return []int{fnRaw, fnCount, fnSum, fnMean, fnMin, fnMax, fnFirst, fnLast, fnSpread, fnMedian,
+			fnDistinct, fnMode, fnPercentile, fnCountDistinct}
 	case ftStr:
-		return []int{fnRaw, fnCount, fnFirst, fnLast}
+		return []int{fnRaw, fnCount, fnFirst, fnLast, fnDistinct, fnMode, fnCountDistinct}
 	default:
-		return []int{fnRaw, fnCount, fnFirst, fnLast, fnMin, fnMax}
+		return []int{fnRaw, fnCount, fnFirst, fnLast, fnMin, fnMax, fnDistinct, fnMode, fnCountDistinct}
 	}
+}
+
+// twice the second argument of percentile(): boundaries of the nearest-rank index (0, 100,
+// above 100, x.5) and the usual ones
+var pct2s = []int{0, 1, 2, 20, 50, 66, 99, 100, 101, 120, 150, 180, 190, 198, 199, 200, 201, 240}
+
+func genPct2(r *hx.Rand) int {
+	if r.Chance(30) {
+		return r.Intn(201)
+	}
+	return pct2s[r.Intn(len(pct2s))]
 }
 
 func fillsFor(ft, fn int) []int {
 	if ft == ftFloat || ft == ftInt {
 		return []int{fillNull, fillNone, fillNum, fillPrev, fillLinear}
 	}
-	if fn == fnCount {
+	if fn == fnCount || fn == fnCountDistinct {
 		return []int{fillNull, fillNone, fillNum, fillPrev, fillLinear}
 	}
 	return []int{fillNull, fillNone, fillPrev}
@@ -246,6 +287,9 @@ func genStmt(r *hx.Rand, d Data) Stmt {
 		s.Fn = fnRaw
 	} else {
 		s.Fn = fns[1+r.Intn(len(fns)-1)]
+	}
+	if s.Fn == fnPercentile {
+		s.Pct2 = genPct2(r)
 	}
 	align := func(t int64) int64 { return floorDiv(t, 10) * 10 }
 	switch r.Intn(8) {
@@ -421,6 +465,28 @@ func designedTies(ft int) Data {
 	return d
 }
 
+// few values, many duplicates; the same value at different times in different series; ties in
+// frequency; a value that occurs once; cross-series timestamp ties
+func designedDups(ft int) Data {
+	d := Data{FT: ft, Series: [][2]int{{1, 1}, {2, 1}, {3, 2}, {1, 2}}}
+	v := func(i int64) int64 {
+		switch ft {
+		case ftStr:
+			return i % int64(len(strPool))
+		case ftBool:
+			return i % 2
+		}
+		return i
+	}
+	var b []Pt
+	vals := []int64{2, 1, 2, 3, 1, 3, 4, 2, 1, 3, 3, 1, 2, 0, 1, 2, 3, 3, 2, 1, 1, 2, 3, 2}
+	for i, x := range vals {
+		b = append(b, Pt{S: i % 4, T: int64((i*7)%60 - (i%3)*((i*7)%60%5)), V: v(x)})
+	}
+	d.Batches = [][]Pt{b}
+	return d
+}
+
 func designed(o *hx.Out, e *env, thorough bool) {
 	type iv struct{ d, off int64 }
 	ivs := []iv{{0, 0}, {10, 0}, {10, 3}, {20, -7}}
@@ -440,6 +506,9 @@ func designed(o *hx.Out, e *env, thorough bool) {
 				for _, fill := range fills {
 					for _, desc := range []bool{false, true} {
 						s := Stmt{Fn: fn, TMin: -22, TMax: 75, PredTag: -1, Interval: v.d, OffLit: v.off, Fill: fill, FillVal: 5, Desc: desc}
+						if fn == fnPercentile {
+							s.Pct2 = pct2s[(3*k+5)%len(pct2s)]
+						}
 						switch k % 6 {
 						case 1:
 							s.ByHost = true
@@ -454,6 +523,10 @@ func designed(o *hx.Out, e *env, thorough bool) {
 						case 5:
 							s.PredTag, s.PredVal, s.PredNeg = 0, 2, k%4 == 1
 							s.ByRegion = true
+						}
+						if !thorough && fn >= fnDistinct && (k+1)%3 != 0 {
+							k++
+							continue // quick tier: a third of the sweep for distinct/mode/percentile/count(distinct)
 						}
 						if ft != ftFloat && ft != ftInt && k%3 == 0 {
 							k++
@@ -494,13 +567,47 @@ func designed(o *hx.Out, e *env, thorough bool) {
 		var ts []Stmt
 		for _, fn := range fnsFor(ft) {
 			for _, desc := range []bool{false, true} {
-				ts = append(ts, Stmt{Fn: fn, TMin: -5, TMax: 35, PredTag: -1, Desc: desc})
-				ts = append(ts, Stmt{Fn: fn, TMin: -5, TMax: 35, PredTag: -1, Desc: desc, ByRegion: true, Limit: 2})
+				p2 := 0
+				if fn == fnPercentile {
+					p2 = 100
+				}
+				ts = append(ts, Stmt{Fn: fn, TMin: -5, TMax: 35, PredTag: -1, Desc: desc, Pct2: p2})
+				ts = append(ts, Stmt{Fn: fn, TMin: -5, TMax: 35, PredTag: -1, Desc: desc, ByRegion: true, Limit: 2, Pct2: p2})
 				if fn != fnRaw {
-					ts = append(ts, Stmt{Fn: fn, TMin: -5, TMax: 35, PredTag: -1, Desc: desc, Interval: 20})
+					ts = append(ts, Stmt{Fn: fn, TMin: -5, TMax: 35, PredTag: -1, Desc: desc, Interval: 20, Pct2: p2})
 				}
 			}
 		}
 		runDataSet(o, e, dt, ts, defaultLayouts(1), "designed")
+
+		// duplicates: equal frequencies, equal values at different times in different series
+		// (hence shards), values that occur once
+		dd := designedDups(ft)
+		var ds []Stmt
+		for _, fn := range []int{fnDistinct, fnMode, fnPercentile, fnCountDistinct} {
+			if fn == fnPercentile && ft != ftFloat && ft != ftInt {
+				continue
+			}
+			for _, desc := range []bool{false, true} {
+				p2s := []int{0}
+				if fn == fnPercentile {
+					p2s = []int{100, 40, 200}
+					if thorough {
+						p2s = []int{100, 40, 150, 200, 1}
+					}
+				}
+				for _, p2 := range p2s {
+					ds = append(ds, Stmt{Fn: fn, TMin: 0, TMax: 59, PredTag: -1, Desc: desc, Pct2: p2})
+					if thorough || ft == ftFloat || ft == ftInt {
+						ds = append(ds, Stmt{Fn: fn, TMin: 0, TMax: 59, PredTag: -1, Desc: desc, Pct2: p2, ByRegion: true})
+					}
+					ds = append(ds, Stmt{Fn: fn, TMin: 0, TMax: 59, PredTag: -1, Desc: desc, Pct2: p2, Interval: 30, Limit: 3, Off: 1})
+					if thorough || p2 == p2s[0] {
+						ds = append(ds, Stmt{Fn: fn, TMin: 3, TMax: 52, PredTag: -1, Desc: desc, Pct2: p2, Interval: 20, OffLit: 5, ByHost: true, Fill: fillPrev})
+					}
+				}
+			}
+		}
+		runDataSet(o, e, dd, ds, defaultLayouts(1), "designed")
 	}
 }
